@@ -12,8 +12,8 @@ from concurrent.futures import ThreadPoolExecutor
 VERIF = os.path.dirname(os.path.dirname(os.path.abspath(__file__)))
 REPO = os.environ.get('VERIF_REPO', '/repo')
 SPEC = os.path.join(VERIF, 'spec')
-WORK = os.path.join(VERIF, 'work')
-EVID = os.path.join(VERIF, 'evidence')
+WORK = os.environ.get('VERIF_WORK') or os.path.join(VERIF, 'work')
+EVID = os.environ.get('VERIF_EVID') or os.path.join(VERIF, 'evidence')
 TLA_CP = '/opt/veriftools/tla/tla2tools.jar:/opt/veriftools/tla/CommunityModules-deps.jar'
 NCPU = min(16, os.cpu_count() or 4)
 
